@@ -11,9 +11,19 @@ package main
 // of every data map and of every injected-data map must equal the digest taken
 // before the history; and the output of every render must equal the output of
 // the same render ALONE: a fresh compile of the same sources and a fresh copy
-// of the data.  Three configurations of the user-extensible registries: none;
-// a built-in obligatory print directive (the model renders it too); a custom
-// obligatory directive plus a custom function.  The globals are restored.
+// of the data (for the last render of every history: in a fresh PROCESS).
+// Three configurations of the user-extensible registries: none; a built-in
+// obligatory print directive (the model renders it too); a custom obligatory
+// directive plus custom functions.  The globals are restored.
+//
+// What the histories are made to reach: calls whose data is a non-reference
+// expression that still yields a caller-owned map, with params on top; JS
+// generation (both formatters) over prints with marker directives followed by
+// others and chains of 2-7 directives, generated twice; renders that fail at
+// depth with names bound at every level, followed at once by renders of
+// templates whose data keys are those names; a second bundle with the same
+// template names and different bodies; the caller changing its own data between
+// renders; one Tofu per registry for the whole history.
 
 import (
 	"bytes"
@@ -23,6 +33,7 @@ import (
 	"fmt"
 	"math"
 	"os"
+	"os/exec"
 	"reflect"
 	"sort"
 	"strings"
@@ -141,12 +152,16 @@ func (d *digester) walk(v reflect.Value) {
 // ---------- cases ----------
 
 type c08Step struct {
-	Kind     string `json:"kind"` // render | render-short | render-nodata | render-missing | jsgen
+	Kind     string `json:"kind"` // render | render-short | render-nodata | render-missing | jsgen | mutate
 	Template string `json:"template,omitempty"`
 	Data     int    `json:"data"`
 	Ij       int    `json:"ij"` // -1: none
 	Budget   int    `json:"budget,omitempty"`
 	File     int    `json:"file,omitempty"`
+	ES6      bool   `json:"es6,omitempty"`
+	Alt      bool   `json:"alt_bundle,omitempty"` // the second bundle: same template names, other bodies
+	Key      string `json:"key,omitempty"`        // mutate: the CALLER changes its own data map
+	Val      string `json:"val,omitempty"`
 }
 
 type c08Case struct {
@@ -167,9 +182,100 @@ const c08Extra = `{namespace extra}
 /**
  * @param? x
  * @param names
+ * @param rec
+ * @param flag
  */
 {template .ij}
 {$ij.foo}{if $x}{$x}{/if}<i>{$ij.bar ?: 'none'}</i>{foreach $n in $names}{$n}{/foreach}
+{call .leaf data="$flag ? $ij : $rec"}{param a: 'ij-a' /}{param b}ij-b{/param}{/call}{$ij.a ?: 'no-a'}{$ij.b ?: 'no-b'}
+{/template}
+
+/**
+ * Every way a call passes data, with parameters set on top, from inside nested blocks; the
+ * caller's locals and the data map are used again afterwards.  The data expressions that are not
+ * plain references still evaluate to maps the caller owns.
+ * @param rec
+ * @param a
+ * @param b
+ * @param c
+ * @param flag
+ * @param? opt2
+ */
+{template .probe}
+{let $k: 'k0' /}
+{foreach $q in $c}
+{call .sink data="$rec"}{param a: $q /}{param b}p{$k}{/param}{/call}
+{call .sink data="all"}{param a: $q + 1 /}{/call}
+{call .sink data="$opt2 ?: $rec"}{param a: $q + 2 /}{/call}
+{$k}{$q}{if isLast($q)}.{/if}
+{/foreach}
+{call .sink data="all" /}{call .sink}{param a: 0 /}{param b: $b /}{param c: $c /}{/call}
+{call .sink data="$flag ? $rec : $rec"}{param b}tern{/param}{param c: [1, 2, 3, 4] /}{/call}
+{call .sink data="not $flag ? $rec : ($opt2 ?: $rec)"}{param a: -1 /}{/call}
+{$k}{$a}{$b}{$rec.a}{$rec.b}{length($rec.c)}
+{/template}
+
+/**
+ * @param a
+ * @param b
+ * @param c
+ */
+{template .sink}
+[{$a}|{$b}|{length($c)}]{let $z: 'shadow' /}{$z}{call .leaf data="all"}{param b: 'leaf' /}{/call}{$b}
+{/template}
+
+/**
+ * @param a
+ * @param b
+ */
+{template .leaf}
+<{$a}{$b}>{let $a2}{$a}{/let}{$a2}
+{/template}
+
+/**
+ * Fails at depth (inside param content, inside a call, inside a loop, below top-level lets) with a
+ * name bound at every level; the names are data keys of the other templates.
+ * @param c
+ * @param? never
+ */
+{template .failAtDepth}
+{let $name: 'stale-name' /}{let $a: 'stale-a' /}{let $b}stale-b{/let}{$name}{$a}{$b}
+{foreach $s in $c}
+{let $x: 'stale-x' /}{let $flag: 'stale-flag' /}{$x}{$flag}
+{call .leaf}{param a}{let $names: 'stale-names' /}{$names}{if $s > -100}{$never.boom}{/if}{/param}{param b: 1 /}{/call}
+{/foreach}
+{/template}
+
+/**
+ * @param c
+ * @param? never
+ */
+{template .failShallow}
+{length($c)}{let $name: 'stale-name' /}{let $s: 'stale-s' /}{let $c: 'stale-c' /}{let $rec: 'stale-rec' /}{$name}{$s}{$c}{$rec}{$never.boom}
+{/template}
+
+/**
+ * @param c
+ * @param? never
+ */
+{template .failInCallee}
+{let $x: 'stale-x' /}{$x}{foreach $a in $c}{$a}{call .failShallow data="all" /}{/foreach}
+{/template}
+
+/**
+ * Reads, at every block depth, the names the failing templates bind.
+ * @param name
+ * @param a
+ * @param b
+ * @param s
+ * @param x
+ * @param c
+ * @param flag
+ * @param names
+ * @param rec
+ */
+{template .victim}
+{$name}|{$a}|{$b}|{$s}|{$x}|{$flag}|{foreach $q in $c}{$s}{$x}{$flag}{if $q > -100}{$name}{$a}{$names[0]}{/if}{/foreach}|{call .leaf data="all" /}|{$rec.a}{length($c)}
 {/template}
 `
 
@@ -178,14 +284,37 @@ const c08Custom = `{namespace custom}
 /**
  * @param names
  * @param b
+ * @param rec
  */
 {template .custom}
-{verifTwice(length($names))}{$b}{let $k}{$b}&{/let}{$k}
+{verifTwice(length($names))}{$b}{let $k}{$b}&{/let}{$k}{call extra.leaf data="verifSame($rec)"}{param a: 'fn-a' /}{/call}{$rec.a}
 {/template}
 `
 
+var c08Dirs = []string{"id", "noAutoescape", "escapeHtml", "escapeUri", "changeNewlineToBr", "truncate:5", "insertWordBreaks:3", "truncate:9,false", "escapeJsString", "json"}
+
+// c08Chains: prints carrying 2-7 directives, markers (id, noAutoescape) in front of, between and after others.
+func c08Chains(r *hx.Rand) string {
+	var sb strings.Builder
+	sb.WriteString("{namespace chains}\n\n/**\n * @param s\n * @param b\n * @param x\n */\n{template .t}\n{$s|noAutoescape|escapeUri}{$b|id|truncate:5}{$x|id|escapeUri}{$s|escapeHtml|id|escapeUri|noAutoescape|changeNewlineToBr}")
+	for i := 0; i < 5; i++ {
+		n := 2 + r.Intn(6)
+		pool := c08Dirs
+		if i < 3 {
+			pool = c08Dirs[:8] // the directives the model has functions for
+		}
+		sb.WriteString("{" + []string{"$s", "$b", "$x", "$s + $b"}[r.Intn(4)])
+		for j := 0; j < n; j++ {
+			sb.WriteString("|" + pool[r.Intn(len(pool))])
+		}
+		sb.WriteString("}-")
+	}
+	sb.WriteString("\n{/template}\n")
+	return sb.String()
+}
+
 func runC08(e *env) {
-	e.res.Rule = "per bundle (gen_prog.go command grammar + a file using $ij and a custom function) one compiled registry, 3 data maps, 2 injected-data maps and a history of 12 (quick) / 200 (thorough) steps drawn from: render any template of the bundle with any data set and optional $ij, render against a short-capacity writer, render with empty data, render a missing template, soyjs.Write of a file; under 3 registry configurations (plain; built-in obligatory directive escapeUri/escapeHtml, compared with the model; custom obligatory directive + custom function). After EVERY step: deep reflect digest of registry, all data maps, all ij maps and the registry globals equals the initial one; every render's (output, error?) equals the same render alone (fresh compile, fresh copy of the data). Model vs implementation on (output, error?) of every distinct render, and model's shared-write count = 0. Non-trivial = history with at least 2 successful renders of a template that prints; distinct by sources + steps."
+	e.res.Rule = "per bundle (gen_prog.go command grammar + hand-written probes: every form of call data incl. non-reference expressions yielding caller-owned maps with params on top; templates failing at depth with names bound at every level and a victim template reading those names; $ij; custom functions; a template of prints with chains of 2-7 directives incl. markers followed by others) one compiled registry A, a second registry B with the same template names and other bodies, ONE Tofu per registry, 3 data maps, 2 injected-data maps and a history of 12 (quick) / 200 (thorough) steps drawn from: render any template with any data set and optional $ij (on A or B), a failing probe followed at once by the victim, render against a short-capacity writer, render with empty data, render a missing template, repeat the previous step, the caller changing a key of its own data map, soyjs.Write of a file with the ES5 or ES6 formatter; under 3 registry configurations (plain; built-in obligatory directive escapeUri/escapeHtml, compared with the model; custom obligatory directive + custom functions). After EVERY step: deep reflect digest of both registries, all data maps, all ij maps and the registry globals equals the expected one; every render's (output, error?) and every generation's (JavaScript text, error?) equals the same step alone (fresh compile, fresh copy of the data); the last render of every history is also compared with the same render in a fresh process. Model vs implementation on (output, error?) of every distinct render, and model's shared-write count = 0. Non-trivial = history with at least 2 successful renders of a template that prints; distinct by sources + steps."
 	if e.replay != "" {
 		c08Replay(e)
 		return
@@ -212,7 +341,7 @@ func runC08(e *env) {
 		for f := range feats {
 			e.res.Histogram["feat:"+f]++
 		}
-		files = append(files, srcFile{"extra.soy", c08Extra}, srcFile{"custom.soy", c08Custom})
+		files = append(files, srcFile{"extra.soy", c08Extra}, srcFile{"custom.soy", c08Custom}, srcFile{"chains.soy", c08Chains(e.rng)})
 		c := c08Case{Files: files}
 		switch i % 3 {
 		case 1:
@@ -225,30 +354,50 @@ func runC08(e *env) {
 		for k := 0; k < 3; k++ {
 			dm := genData(e.rng, c08Pool, o)
 			dm["n"] = data.Int(e.rng.Intn(5)) // depth of the recursive countdown template
+			dm["name"] = data.String([]string{"Alice", "<Bob>", "C&D"}[k])
+			if k == 0 {
+				dm["x"] = data.Int(3)
+			}
 			c.DataSets = append(c.DataSets, valueSexp(dm, ids))
 		}
-		c.Ijs = []string{valueSexp(data.Map{"foo": data.String("<ij&>"), "bar": data.Int(3)}, ids),
+		c.Ijs = []string{valueSexp(data.Map{"foo": data.String("<ij&>"), "bar": data.Int(3), "c": data.List{data.Int(1)}}, ids),
 			valueSexp(data.Map{"foo": data.List{data.Int(1), data.String("two")}}, ids)}
 		names := c08TemplateNames(files)
 		if len(names) == 0 {
 			e.res.Histogram["compile-errors"]++
+			if _, err := c08Compile(files); err != nil && e.res.Histogram["compile-errors"] <= 2 {
+				e.res.Note("compile error: %v", err)
+			}
 			continue
 		}
-		for s := 0; s < steps; s++ {
+		fails := []string{"extra.failAtDepth", "extra.failShallow", "extra.failInCallee"}
+		for s := 0; len(c.Steps) < steps; s++ {
 			st := c08Step{Data: e.rng.Intn(len(c.DataSets)), Ij: e.rng.Intn(len(c.Ijs)+1) - 1}
-			switch r := e.rng.Intn(20); {
-			case r < 12:
+			switch r := e.rng.Intn(24); {
+			case len(c.Steps) == 1: // every history exercises the call-data probe at least once
+				st.Kind, st.Template = "render", "extra.probe"
+			case r < 7:
 				st.Kind, st.Template = "render", names[e.rng.Intn(len(names))]
-			case r < 14:
-				st.Kind, st.Template, st.Budget = "render-short", names[e.rng.Intn(len(names))], e.rng.Intn(12)
+			case r < 9:
+				st.Kind, st.Template, st.Alt = "render", names[e.rng.Intn(len(names))], true
+			case r < 12: // a render that fails at depth, then at once a reader of the names it had bound
+				st.Kind, st.Template = "render", fails[e.rng.Intn(len(fails))]
+				c.Steps = append(c.Steps, st)
+				st = c08Step{Kind: "render", Template: "extra.victim", Data: e.rng.Intn(len(c.DataSets)), Ij: -1, Alt: e.rng.Chance(25)}
+			case r < 13:
+				st.Kind, st.Template = "render", []string{"chains.t", "extra.ij", "custom.custom"}[e.rng.Intn(3)]
 			case r < 15:
-				st.Kind, st.Template = "render-nodata", names[e.rng.Intn(len(names))]
+				st.Kind, st.Template, st.Budget = "render-short", names[e.rng.Intn(len(names))], e.rng.Intn(12)
 			case r < 16:
+				st.Kind, st.Template = "render-nodata", names[e.rng.Intn(len(names))]
+			case r < 17:
 				st.Kind, st.Template = "render-missing", "no.such.template"
-			case r < 17 && s > 0: // the same render again, back to back
-				st = c.Steps[s-1]
+			case r < 18 && len(c.Steps) > 0: // the same step again, back to back
+				st = c.Steps[len(c.Steps)-1]
+			case r < 19:
+				st = c08Step{Kind: "mutate", Data: st.Data, Ij: -1, Key: []string{"b", "s", "name"}[e.rng.Intn(3)], Val: fmt.Sprintf("m<%d>", s)}
 			default:
-				st.Kind, st.File = "jsgen", e.rng.Intn(len(files))
+				st = c08Step{Kind: "jsgen", File: e.rng.Intn(len(files)), ES6: e.rng.Bool(), Alt: e.rng.Chance(20), Ij: -1}
 			}
 			c.Steps = append(c.Steps, st)
 		}
@@ -256,12 +405,17 @@ func runC08(e *env) {
 	}
 }
 
-func c08TemplateNames(files []srcFile) []string {
-	b := soy.NewBundle()
+// c08AltFiles: the second bundle -- the same template names, every template body marked.
+func c08AltFiles(files []srcFile) []srcFile {
+	var out []srcFile
 	for _, f := range files {
-		b.AddTemplateString(f.Name, f.Text)
+		out = append(out, srcFile{f.Name, strings.ReplaceAll(f.Text, "{/template}", "~B{/template}")})
 	}
-	reg, err := b.Compile()
+	return out
+}
+
+func c08TemplateNames(files []srcFile) []string {
+	reg, err := c08Compile(files)
 	if err != nil {
 		return nil
 	}
@@ -311,56 +465,121 @@ func c08Install(c *c08Case) func() {
 		soyhtml.Funcs["verifTwice"] = soyhtml.Func{
 			Apply:           func(args []data.Value) data.Value { n, _ := args[0].(data.Int); return data.Int(2 * n) },
 			ValidArgLengths: []int{1}}
+		// a function that hands back (a map owned by) its argument
+		soyhtml.Funcs["verifSame"] = soyhtml.Func{
+			Apply:           func(args []data.Value) data.Value { return args[0] },
+			ValidArgLengths: []int{1}}
 	}
 	return func() {
 		soyhtml.ObligatoryPrintDirectiveNames = savedOblig
 		delete(soyhtml.PrintDirectives, "verifBang")
 		delete(soyhtml.Funcs, "verifTwice")
+		delete(soyhtml.Funcs, "verifSame")
 	}
 }
 
 func c08Globals() string {
-	var ds, fs []string
+	var ds, fs, js []string
 	for k := range soyhtml.PrintDirectives {
 		ds = append(ds, k)
 	}
 	for k := range soyhtml.Funcs {
 		fs = append(fs, k)
 	}
+	for k := range soyjs.PrintDirectives {
+		js = append(js, k)
+	}
+	for k := range soyjs.Funcs {
+		js = append(js, "f:"+k)
+	}
 	sort.Strings(ds)
 	sort.Strings(fs)
-	return strings.Join(ds, ",") + "|" + strings.Join(fs, ",") + "|" + strings.Join(soyhtml.ObligatoryPrintDirectiveNames, ",")
+	sort.Strings(js)
+	return strings.Join(ds, ",") + "|" + strings.Join(fs, ",") + "|" + strings.Join(soyhtml.ObligatoryPrintDirectiveNames, ",") + "|" + strings.Join(js, ",")
 }
 
 type c08Out struct {
-	out string
-	err bool
-	msg string
+	Out string `json:"out"`
+	Err bool   `json:"err"`
+	Msg string `json:"msg"`
 }
 
-func c08Exec(reg *template.Registry, st c08Step, d data.Map, ij data.Map) (res c08Out) {
+// c08World is one set of the objects a history shares.
+type c08World struct {
+	reg   [2]*template.Registry
+	tofu  [2]*soyhtml.Tofu
+	ds    []data.Map
+	ijs   []data.Map
+	files [2][]srcFile
+}
+
+// c08Build compiles both bundles and rebuilds the data, with the caller's own changes of steps < upto applied.
+func c08Build(c *c08Case, upto int) (*c08World, error) {
+	w := &c08World{}
+	w.files[0], w.files[1] = c.Files, c08AltFiles(c.Files)
+	for k := 0; k < 2; k++ {
+		reg, err := c08Compile(w.files[k])
+		if err != nil {
+			return nil, err
+		}
+		w.reg[k], w.tofu[k] = reg, soyhtml.NewTofu(reg)
+	}
+	var err error
+	if w.ds, err = c08Values(c.DataSets); err != nil {
+		return nil, err
+	}
+	if w.ijs, err = c08Values(c.Ijs); err != nil {
+		return nil, err
+	}
+	for i := 0; i < upto && i < len(c.Steps); i++ {
+		if st := c.Steps[i]; st.Kind == "mutate" {
+			w.ds[st.Data%len(w.ds)][st.Key] = data.String(st.Val)
+		}
+	}
+	return w, nil
+}
+
+func (w *c08World) exec(st c08Step) (res c08Out) {
 	defer func() {
 		if r := recover(); r != nil {
-			res = c08Out{res.out, true, fmt.Sprintf("PANIC: %v", r)}
+			res = c08Out{res.Out, true, fmt.Sprintf("PANIC: %v", r)}
 		}
 	}()
-	tofu := soyhtml.NewTofu(reg)
+	k := 0
+	if st.Alt {
+		k = 1
+	}
+	d := w.ds[st.Data%len(w.ds)]
+	if st.Kind == "render-nodata" {
+		d = data.Map{}
+	}
+	var ij data.Map
+	if st.Ij >= 0 {
+		ij = w.ijs[st.Ij%len(w.ijs)]
+	}
 	switch st.Kind {
+	case "mutate":
+		d[st.Key] = data.String(st.Val)
+		return c08Out{}
 	case "jsgen":
 		var buf bytes.Buffer
-		err := soyjs.Write(&buf, reg.SoyFiles[st.File%len(reg.SoyFiles)], soyjs.Options{})
-		return c08Out{"", err != nil, errStr(err)} // the JS text is C13/C14's business
+		opt := soyjs.Options{}
+		if st.ES6 {
+			opt.Formatter = soyjs.ES6Formatter{}
+		}
+		err := soyjs.Write(&buf, w.reg[k].SoyFiles[st.File%len(w.reg[k].SoyFiles)], opt)
+		return c08Out{buf.String(), err != nil, errStr(err)}
 	case "render-short":
-		w := &c08Short{left: st.Budget}
-		r := tofu.NewRenderer(st.Template)
+		sw := &c08Short{left: st.Budget}
+		r := w.tofu[k].NewRenderer(st.Template)
 		if ij != nil {
 			r = r.Inject(ij)
 		}
-		err := r.Execute(w, d)
-		return c08Out{string(w.acc), err != nil, errStr(err)}
+		err := r.Execute(sw, d)
+		return c08Out{string(sw.acc), err != nil, errStr(err)}
 	default:
 		var buf bytes.Buffer
-		r := tofu.NewRenderer(st.Template)
+		r := w.tofu[k].NewRenderer(st.Template)
 		if ij != nil {
 			r = r.Inject(ij)
 		}
@@ -386,37 +605,62 @@ func (w *c08Short) Write(p []byte) (int, error) {
 	return n, fmt.Errorf("short write")
 }
 
+func init() { workers["c08ref"] = c08RefWorker }
+
+// c08RefWorker: one step of a case, alone in a fresh process.  stdin: {"case":..., "step": i}; stdout: the c08Out.
+func c08RefWorker(args []string) {
+	var in struct {
+		Case c08Case `json:"case"`
+		Step int     `json:"step"`
+	}
+	if err := json.NewDecoder(os.Stdin).Decode(&in); err != nil || in.Step >= len(in.Case.Steps) {
+		fmt.Println(`{"msg":"bad request"}`)
+		return
+	}
+	restore := c08Install(&in.Case)
+	defer restore()
+	w, err := c08Build(&in.Case, in.Step)
+	if err != nil {
+		fmt.Println(`{"msg":"compile error"}`)
+		return
+	}
+	bs, _ := json.Marshal(w.exec(in.Case.Steps[in.Step]))
+	fmt.Println("D " + string(bs))
+}
+
+func c08FreshProcess(e *env, c *c08Case, step int) (c08Out, bool) {
+	req, _ := json.Marshal(map[string]interface{}{"case": c, "step": step})
+	cmd := exec.Command(e.self, "worker", "c08ref")
+	cmd.Stdin = bytes.NewReader(req)
+	outb, err := cmd.Output()
+	if err != nil {
+		return c08Out{}, false
+	}
+	for _, line := range strings.Split(string(outb), "\n") {
+		if strings.HasPrefix(line, "D ") {
+			var o c08Out
+			if json.Unmarshal([]byte(line[2:]), &o) == nil {
+				return o, true
+			}
+		}
+	}
+	return c08Out{}, false
+}
+
 func c08Run(e *env, c *c08Case, key string, sample bool) {
 	restore := c08Install(c)
 	defer restore()
-	reg, err := c08Compile(c.Files)
+	w, err := c08Build(c, 0)
 	if err != nil {
 		e.res.Histogram["compile-errors"]++
 		return
 	}
-	ds, err1 := c08Values(c.DataSets)
-	ijs, err2 := c08Values(c.Ijs)
-	if err1 != nil || err2 != nil {
-		e.res.Fail(hx.Violation{Kind: "obligation", What: "cannot rebuild the data of the case", Case: c}, "")
-		return
-	}
-	pick := func(st c08Step, ds, ijs []data.Map) (data.Map, data.Map) {
-		d := ds[st.Data%len(ds)]
-		if st.Kind == "render-nodata" {
-			d = data.Map{}
-		}
-		var ij data.Map
-		if st.Ij >= 0 {
-			ij = ijs[st.Ij%len(ijs)]
-		}
-		return d, ij
-	}
 	digest := func() []string {
-		out := []string{deepDigest(reg), c08Globals()}
-		for _, d := range ds {
+		out := []string{deepDigest(w.reg[0]), deepDigest(w.reg[1]), c08Globals()}
+		for _, d := range w.ds {
 			out = append(out, deepDigest(d))
 		}
-		for _, d := range ijs {
+		for _, d := range w.ijs {
 			out = append(out, deepDigest(d))
 		}
 		return out
@@ -426,43 +670,60 @@ func c08Run(e *env, c *c08Case, key string, sample bool) {
 		case i == 0:
 			return "the compiled registry"
 		case i == 1:
-			return "the registry globals (PrintDirectives / Funcs / ObligatoryPrintDirectiveNames)"
-		case i < 2+len(ds):
-			return fmt.Sprintf("data map %d", i-2)
+			return "the second compiled registry"
+		case i == 2:
+			return "the registry globals (PrintDirectives / Funcs / ObligatoryPrintDirectiveNames, soyjs tables)"
+		case i < 3+len(w.ds):
+			return fmt.Sprintf("data map %d", i-3)
 		}
-		return fmt.Sprintf("injected-data map %d", i-2-len(ds))
+		return fmt.Sprintf("injected-data map %d", i-3-len(w.ds))
 	}
 	d0 := digest()
 
-	// model: the registry as compiled, before anything ran
+	// model: the registries as compiled, before anything ran
 	modelOK := c.Oblig != "verifBang"
 	ids := newIDTable()
 	if modelOK {
-		if r := e.m.Call("load_registry", key, registrySexp(reg, ids)); len(r) == 0 || r[0] != "#1" {
-			e.res.Fail(hx.Violation{Kind: "mismatch", What: "model cannot load the registry", Case: c, Observed: fmt.Sprint(r)}, "")
-			modelOK = false
+		for k := 0; k < 2; k++ {
+			if r := e.m.Call("load_registry", fmt.Sprintf("%s-%d", key, k), registrySexp(w.reg[k], ids)); len(r) == 0 || r[0] != "#1" {
+				e.res.Fail(hx.Violation{Kind: "mismatch", What: "model cannot load the registry", Case: c, Observed: fmt.Sprint(r)}, "")
+				modelOK = false
+			}
 		}
 	}
 
 	alone := map[string]c08Out{}
 	okRenders := 0
 	failedDigest, failedOutput := false, false
+	epoch := make([]int, len(w.ds))
+	lastRender := -1
+	var lastGot c08Out
 	for i, st := range c.Steps {
-		d, ij := pick(st, ds, ijs)
-		got := c08Exec(reg, st, d, ij)
+		got := w.exec(st)
 		e.res.Histogram["step:"+st.Kind]++
-		if got.err {
+		if strings.HasPrefix(st.Template, "extra.") || strings.HasPrefix(st.Template, "chains.") || strings.HasPrefix(st.Template, "custom.") {
+			if st.Kind == "render" {
+				e.res.Histogram[fmt.Sprintf("probe:%s:err=%v", st.Template, got.Err)]++
+				if got.Err && os.Getenv("C08_DEBUG") != "" {
+					m := got.Msg
+					if len(m) > 100 {
+						m = m[:100]
+					}
+					e.res.Histogram["probe-error:"+st.Template+":"+m]++
+				}
+			}
+		}
+		if got.Err {
 			e.res.Histogram["step-errors"]++
 			e.res.Histogram["step-errors:"+st.Kind]++
-			if st.Kind == "jsgen" && os.Getenv("C08_DEBUG") != "" {
-				m := got.msg
-				if len(m) > 90 {
-					m = m[:90]
-				}
-				e.res.Histogram["jsgen-error:"+m]++
-			}
-		} else if st.Kind == "render" && got.out != "" {
+		} else if st.Kind == "render" && got.Out != "" {
 			okRenders++
+		}
+		if st.Kind == "mutate" {
+			// the caller's own change: that map's expected digest moves, nothing else may
+			k := st.Data % len(w.ds)
+			epoch[k]++
+			d0[3+k] = deepDigest(w.ds[k])
 		}
 		// (1) nothing shared changed
 		d1 := digest()
@@ -474,55 +735,91 @@ func c08Run(e *env, c *c08Case, key string, sample bool) {
 					Expected: "digest " + d0[k], Observed: "digest " + d1[k]}, "")
 			}
 		}
-		if st.Kind == "jsgen" {
+		if st.Kind == "mutate" {
 			continue
 		}
-		// (2) the same render alone: fresh compile, fresh data
-		sk := fmt.Sprintf("%s|%s|%d|%d|%d", st.Kind, st.Template, st.Data, st.Ij, st.Budget)
+		// (2) the same step alone: fresh compile, fresh data
+		sk := fmt.Sprintf("%s|%s|%d.%d|%d|%d|%d|%v|%v", st.Kind, st.Template, st.Data, epoch[st.Data%len(epoch)], st.Ij, st.Budget, st.File, st.ES6, st.Alt)
 		ref, ok := alone[sk]
 		if !ok {
-			reg2, err := c08Compile(c.Files)
-			ds2, _ := c08Values(c.DataSets)
-			ijs2, _ := c08Values(c.Ijs)
+			w2, err := c08Build(c, i)
 			if err != nil {
 				continue
 			}
-			d2, ij2 := pick(st, ds2, ijs2)
-			ref = c08Exec(reg2, st, d2, ij2)
+			ref = w2.exec(st)
 			alone[sk] = ref
 			if modelOK && (st.Kind == "render" || st.Kind == "render-nodata" || st.Kind == "render-short") {
-				c08Model(e, c, key, st, d2, ij2, ref, ids)
+				c08Model(e, c, key, st, w2, ref, ids)
 			}
 		}
-		if (got.out != ref.out || got.err != ref.err) && !failedOutput {
+		if (got.Out != ref.Out || got.Err != ref.Err) && !failedOutput {
 			failedOutput = true
 			c.FailedAt = i
-			e.res.Fail(hx.Violation{Kind: "oracle", What: fmt.Sprintf("step %d: render of %s gives a different result after this history than alone", i, st.Template), Case: c,
-				Expected: hx.Q(ref.out) + " error=" + fmt.Sprint(ref.err), Observed: hx.Q(got.out) + " error=" + fmt.Sprint(got.err) + " " + got.msg}, "")
+			thing := "render of " + st.Template
+			if st.Kind == "jsgen" {
+				thing = "JavaScript generated for file " + fmt.Sprint(st.File)
+			}
+			e.res.Fail(hx.Violation{Kind: "oracle", What: fmt.Sprintf("step %d: %s gives a different result after this history than alone", i, thing), Case: c,
+				Expected: hx.Q(c08Clip(ref.Out)) + " error=" + fmt.Sprint(ref.Err), Observed: hx.Q(c08Clip(got.Out)) + " error=" + fmt.Sprint(got.Err) + " " + got.Msg}, "")
+		}
+		if st.Kind != "jsgen" {
+			lastRender, lastGot = i, got
+		}
+	}
+	// (3) the last render of the history against the same render in a fresh process
+	if lastRender >= 0 && os.Getenv("C08_NO_FRESH_PROCESS") == "" {
+		if ref, ok := c08FreshProcess(e, c, lastRender); ok {
+			e.res.Histogram["fresh-process-references"]++
+			if (lastGot.Out != ref.Out || lastGot.Err != ref.Err) && !failedOutput {
+				c.FailedAt = lastRender
+				e.res.Fail(hx.Violation{Kind: "oracle", What: fmt.Sprintf("step %d: render of %s gives a different result after this history than alone in a fresh process", lastRender, c.Steps[lastRender].Template), Case: c,
+					Expected: hx.Q(c08Clip(ref.Out)) + " error=" + fmt.Sprint(ref.Err), Observed: hx.Q(c08Clip(lastGot.Out)) + " error=" + fmt.Sprint(lastGot.Err)}, "")
+			}
+		} else {
+			e.res.Histogram["fresh-process-failures"]++
 		}
 	}
 	bs, _ := json.Marshal(c.Steps)
 	e.res.Count(fmt.Sprint(c.Files)+string(bs)+c.Oblig, okRenders >= 2, "history:"+map[bool]string{true: "custom", false: "builtin"}[c.Custom]+":"+map[bool]string{true: "obligatory", false: "plain"}[c.Oblig != ""])
 	if sample {
-		e.res.Sample(map[string]interface{}{"files": len(c.Files), "obligatory": c.Oblig, "custom_function": c.Custom, "steps": c.Steps[:4], "n_steps": len(c.Steps), "successful_renders": okRenders})
+		n := len(c.Steps)
+		if n > 4 {
+			n = 4
+		}
+		e.res.Sample(map[string]interface{}{"files": len(c.Files), "obligatory": c.Oblig, "custom_function": c.Custom, "steps": c.Steps[:n], "n_steps": len(c.Steps), "successful_renders": okRenders})
 	}
 }
 
+func c08Clip(s string) string {
+	if len(s) > 400 {
+		return s[:400] + "..."
+	}
+	return s
+}
+
 // c08Model compares one render (alone) with the model and checks the model's shared-write record.
-func c08Model(e *env, c *c08Case, key string, st c08Step, d, ij data.Map, ref c08Out, ids *idTable) {
+func c08Model(e *env, c *c08Case, key string, st c08Step, w *c08World, ref c08Out, ids *idTable) {
 	obl := "-"
 	if c.Oblig != "" {
 		obl = hex.EncodeToString([]byte(c.Oblig))
 	}
+	d := w.ds[st.Data%len(w.ds)]
+	if st.Kind == "render-nodata" {
+		d = data.Map{}
+	}
 	ijs := "none"
-	if ij != nil {
-		ijs = valueSexp(ij, ids)
+	if st.Ij >= 0 {
+		ijs = valueSexp(w.ijs[st.Ij%len(w.ijs)], ids)
 	}
 	bl := "none"
 	if st.Kind == "render-short" {
 		bl = fmt.Sprintf("#%d", st.Budget)
 	}
-	r := e.m.Call("render", key, sx(st.Template), "#4000", "none", bl, obl, ijs, ";", valueSexp(d, ids))
+	k := 0
+	if st.Alt {
+		k = 1
+	}
+	r := e.m.Call("render", fmt.Sprintf("%s-%d", key, k), sx(st.Template), "#4000", "none", bl, obl, ijs, ";", valueSexp(d, ids))
 	if len(r) < 5 {
 		e.res.Fail(hx.Violation{Kind: "mismatch", What: "model render failed", Case: c, Observed: fmt.Sprint(r)}, "")
 		return
@@ -539,9 +836,9 @@ func c08Model(e *env, c *c08Case, key string, st c08Step, d, ij data.Map, ref c0
 	for _, f := range r[5:] {
 		mo.WriteString(hx.UnH(f))
 	}
-	if (cls == "ok") != !ref.err || (cls != "ok" && cls != "err") || mo.String() != ref.out {
+	if (cls == "ok") != !ref.Err || (cls != "ok" && cls != "err") || mo.String() != ref.Out {
 		e.res.Fail(hx.Violation{Kind: "mismatch", What: "render of " + st.Template + " (" + st.Kind + ") differs from the model", Case: c,
-			Expected: r[0] + " " + hx.Q(mo.String()), Observed: fmt.Sprint(ref.err) + " " + hx.Q(ref.out) + " " + ref.msg}, "")
+			Expected: r[0] + " " + hx.Q(mo.String()), Observed: fmt.Sprint(ref.Err) + " " + hx.Q(ref.Out) + " " + ref.Msg}, "")
 	}
 }
 
